@@ -4,10 +4,12 @@ import DracoProofs.Octahedron
   C16 — prediction-correction transforms are exactly invertible.
 
   Wrap transform (`PredictionSchemeWrap{Encoding,Decoding}Transform<int32_t>`):
-    * `wrap_roundtrip_partial`  — the decoder AS WRITTEN, with the two no-overflow hypotheses;
-    * `wrap_counterexample`, `wrap_roundtrip_false` — without them the property is FALSE of the
-      code (finding F1, replayed on the real classes);
-    * `wrap_roundtrip_fixed`    — the FULL property for the repaired decoder `Wrap.decOrigFixed`;
+    * `wrap_roundtrip`          — the FULL property (any [min,max] with max−min < 2^31−1, any 32-bit
+      prediction) for the decoder as written after the `fix:` commit for finding F1;
+    * history (model `Wrap.decOrigUnfixed` of the decoder before the fix):
+      `wrap_roundtrip_prefix_partial` (needed two no-overflow hypotheses), `wrap_counterexample`,
+      `wrap_roundtrip_false` (without them the property was FALSE of the code; replayed on the
+      real classes), `wrap_fix_agrees_with_prefix` (the fix changes nothing where no overflow occurs);
     * `wrap_corr_in_range`      — corrections lie in `[min_correction, max_correction]`
       (encoder only, no overflow hypothesis), `wrap_init_defined` — `InitCorrectionBounds`
       succeeds exactly when `0 ≤ max − min < 2^31 − 1`.
@@ -33,20 +35,20 @@ example : ∃ t, Wrap.init (-2^31) (-3) = some t := (wrap_init_defined _ _).2 (b
     (`pred` is an arbitrary integer, in particular any int32, also far outside the range),
     PROVIDED the two sums below do not leave int32, decoding the correction returns the original,
     and the correction lies in the announced interval. -/
-theorem wrap_roundtrip_partial (t : WrapT) (lo hi orig pred : Int)
+theorem wrap_roundtrip_prefix_partial (t : WrapT) (lo hi orig pred : Int)
     (hinit : Wrap.init lo hi = some t)
     (hlo : -2^31 ≤ lo) (hhi : hi < 2^31) (ho1 : lo ≤ orig) (ho2 : orig ≤ hi)
     (hov1 : hi + t.maxCorr < 2^31) (hov2 : -2^31 ≤ lo + t.minCorr) :
-    Wrap.decOrig t pred (Wrap.encCorr t orig pred) = orig ∧
+    Wrap.decOrigUnfixed t pred (Wrap.encCorr t orig pred) = orig ∧
       t.minCorr ≤ Wrap.encCorr t orig pred ∧ Wrap.encCorr t orig pred ≤ t.maxCorr := by
   obtain ⟨hb, hd0, hd⟩ := Wrap.init_bounds hinit
-  exact ⟨Wrap.decOrig_encCorr hb hd0 hd hlo hhi orig pred ho1 ho2 hov1 hov2,
+  exact ⟨Wrap.decOrigUnfixed_encCorr hb hd0 hd hlo hhi orig pred ho1 ho2 hov1 hov2,
     Wrap.encCorr_bounds hb hd0 hd hlo hhi orig pred ho1 ho2⟩
 
 /-- non-vacuity: a range around 0, a prediction far outside of it -/
-example : Wrap.decOrig ⟨-1000, 3000, 4001, 2000, -2000⟩ (2^31 - 1)
+example : Wrap.decOrigUnfixed ⟨-1000, 3000, 4001, 2000, -2000⟩ (2^31 - 1)
       (Wrap.encCorr ⟨-1000, 3000, 4001, 2000, -2000⟩ (-999) (2^31 - 1)) = -999 :=
-  (wrap_roundtrip_partial ⟨-1000, 3000, 4001, 2000, -2000⟩ (-1000) 3000 (-999) (2^31 - 1)
+  (wrap_roundtrip_prefix_partial ⟨-1000, 3000, 4001, 2000, -2000⟩ (-1000) 3000 (-999) (2^31 - 1)
     (by decide) (by decide) (by decide) (by decide) (by decide) (by decide) (by decide)).1
 
 /-- The full statement (without the two overflow hypotheses) is FALSE of the code as written:
@@ -56,14 +58,14 @@ example : Wrap.decOrig ⟨-1000, 3000, 4001, 2000, -2000⟩ (2^31 - 1)
 theorem wrap_counterexample :
     Wrap.init (2^30) (2^31 - 1) = some ⟨2^30, 2^31 - 1, 2^30, 2^29 - 1, -2^29⟩ ∧
     Wrap.encCorr ⟨2^30, 2^31 - 1, 2^30, 2^29 - 1, -2^29⟩ (2^30) (2^31 - 11) = 11 ∧
-    Wrap.decOrig ⟨2^30, 2^31 - 1, 2^30, 2^29 - 1, -2^29⟩ (2^31 - 11) 11 = -2^30 := by
+    Wrap.decOrigUnfixed ⟨2^30, 2^31 - 1, 2^30, 2^29 - 1, -2^29⟩ (2^31 - 11) 11 = -2^30 := by
   decide
 
-/-- … hence the unconditional round trip does not hold for `Wrap.decOrig`. -/
+/-- … hence the unconditional round trip does not hold for `Wrap.decOrigUnfixed`. -/
 theorem wrap_roundtrip_false :
     ¬ ∀ (t : WrapT) (lo hi orig pred : Int), Wrap.init lo hi = some t →
         -2^31 ≤ lo → hi < 2^31 → lo ≤ orig → orig ≤ hi → -2^31 ≤ pred → pred < 2^31 →
-        Wrap.decOrig t pred (Wrap.encCorr t orig pred) = orig := by
+        Wrap.decOrigUnfixed t pred (Wrap.encCorr t orig pred) = orig := by
   intro h
   have := h ⟨2^30, 2^31 - 1, 2^30, 2^29 - 1, -2^29⟩ (2^30) (2^31 - 1) (2^30) (2^31 - 11)
     (by decide) (by decide) (by decide) (by decide) (by decide) (by decide) (by decide)
@@ -73,27 +75,27 @@ theorem wrap_roundtrip_false :
 /-- The FULL property for the repaired decoder (sum formed in 64 bits before the range test):
     any `[lo, hi]` of int32 values with `hi − lo < 2^31 − 1` (that is: `init` succeeds), any
     original in the range, any prediction — no overflow hypotheses. -/
-theorem wrap_roundtrip_fixed (t : WrapT) (lo hi orig pred : Int)
+theorem wrap_roundtrip (t : WrapT) (lo hi orig pred : Int)
     (hinit : Wrap.init lo hi = some t)
     (hlo : -2^31 ≤ lo) (hhi : hi < 2^31) (ho1 : lo ≤ orig) (ho2 : orig ≤ hi) :
-    Wrap.decOrigFixed t pred (Wrap.encCorr t orig pred) = orig ∧
+    Wrap.decOrig t pred (Wrap.encCorr t orig pred) = orig ∧
       t.minCorr ≤ Wrap.encCorr t orig pred ∧ Wrap.encCorr t orig pred ≤ t.maxCorr := by
   obtain ⟨hb, hd0, hd⟩ := Wrap.init_bounds hinit
-  exact ⟨Wrap.decOrigFixed_encCorr hb hd0 hd hlo hhi orig pred ho1 ho2,
+  exact ⟨Wrap.decOrig_encCorr hb hd0 hd hlo hhi orig pred ho1 ho2,
     Wrap.encCorr_bounds hb hd0 hd hlo hhi orig pred ho1 ho2⟩
 
 /-- non-vacuity: exactly the input on which the decoder as written fails -/
-example : Wrap.decOrigFixed ⟨2^30, 2^31 - 1, 2^30, 2^29 - 1, -2^29⟩ (2^31 - 11)
+example : Wrap.decOrig ⟨2^30, 2^31 - 1, 2^30, 2^29 - 1, -2^29⟩ (2^31 - 11)
       (Wrap.encCorr ⟨2^30, 2^31 - 1, 2^30, 2^29 - 1, -2^29⟩ (2^30) (2^31 - 11)) = 2^30 :=
-  (wrap_roundtrip_fixed _ (2^30) (2^31 - 1) (2^30) (2^31 - 11)
+  (wrap_roundtrip _ (2^30) (2^31 - 1) (2^30) (2^31 - 11)
     (by decide) (by decide) (by decide) (by decide) (by decide)).1
 
 /-- componentwise version for whole entries (`num_components` values) -/
-theorem wrap_roundtrip_fixed_vec (t : WrapT) (lo hi : Int) (orig pred : List Int)
+theorem wrap_roundtrip_vec (t : WrapT) (lo hi : Int) (orig pred : List Int)
     (hinit : Wrap.init lo hi = some t) (hlo : -2^31 ≤ lo) (hhi : hi < 2^31)
     (hlen : orig.length = pred.length) (ho : ∀ x ∈ orig, lo ≤ x ∧ x ≤ hi) :
-    Wrap.decOrigFixedV t pred (Wrap.encCorrV t orig pred) = orig := by
-  unfold Wrap.decOrigFixedV Wrap.encCorrV
+    Wrap.decOrigV t pred (Wrap.encCorrV t orig pred) = orig := by
+  unfold Wrap.decOrigV Wrap.encCorrV
   induction orig generalizing pred with
   | nil => cases pred <;> simp
   | cons o os ih =>
@@ -101,25 +103,25 @@ theorem wrap_roundtrip_fixed_vec (t : WrapT) (lo hi : Int) (orig pred : List Int
     | nil => simp at hlen
     | cons p ps =>
       simp only [List.zipWith_cons_cons, List.cons.injEq]
-      refine ⟨(wrap_roundtrip_fixed t lo hi o p hinit hlo hhi
+      refine ⟨(wrap_roundtrip t lo hi o p hinit hlo hhi
         (ho o (by simp)).1 (ho o (by simp)).2).1, ?_⟩
       exact ih ps (by simpa using hlen) (fun x hx => ho x (by simp [hx]))
 
-example : Wrap.decOrigFixedV ⟨0, 10, 11, 5, -5⟩ [100, -100, 3]
+example : Wrap.decOrigV ⟨0, 10, 11, 5, -5⟩ [100, -100, 3]
     (Wrap.encCorrV ⟨0, 10, 11, 5, -5⟩ [0, 10, 7] [100, -100, 3]) = [0, 10, 7] :=
-  wrap_roundtrip_fixed_vec _ 0 10 _ _ (by decide) (by decide) (by decide) rfl (by decide)
+  wrap_roundtrip_vec _ 0 10 _ _ (by decide) (by decide) (by decide) rfl (by decide)
 
 /-- where no overflow occurs the two decoders agree (so the repair does not change the
     decoding of any stream the old encoder/decoder pair handled correctly) -/
-theorem wrap_fixed_agrees (t : WrapT) (lo hi pred corr : Int)
+theorem wrap_fix_agrees_with_prefix (t : WrapT) (lo hi pred corr : Int)
     (hinit : Wrap.init lo hi = some t) (hlo : -2^31 ≤ lo) (hhi : hi < 2^31)
     (hs1 : -2^31 ≤ Wrap.clamp t pred + corr) (hs2 : Wrap.clamp t pred + corr < 2^31) :
-    Wrap.decOrigFixed t pred corr = Wrap.decOrig t pred corr := by
+    Wrap.decOrig t pred corr = Wrap.decOrigUnfixed t pred corr := by
   obtain ⟨hb, hd0, hd⟩ := Wrap.init_bounds hinit
-  exact Wrap.decOrigFixed_eq_decOrig hb hd0 hd hlo hhi pred corr hs1 hs2
+  exact Wrap.decOrig_eq_decOrigUnfixed hb hd0 hd hlo hhi pred corr hs1 hs2
 
-example : Wrap.decOrigFixed ⟨0, 10, 11, 5, -5⟩ 100 (-4) = Wrap.decOrig ⟨0, 10, 11, 5, -5⟩ 100 (-4) :=
-  wrap_fixed_agrees _ 0 10 100 (-4) (by decide) (by decide) (by decide) (by decide) (by decide)
+example : Wrap.decOrig ⟨0, 10, 11, 5, -5⟩ 100 (-4) = Wrap.decOrigUnfixed ⟨0, 10, 11, 5, -5⟩ 100 (-4) :=
+  wrap_fix_agrees_with_prefix _ 0 10 100 (-4) (by decide) (by decide) (by decide) (by decide) (by decide)
 
 /-- `EncodeTransformData` / `DecodeTransformData`: the decoder reconstructs the same transform
     and consumes exactly the 8 bytes written -/
